@@ -19,7 +19,8 @@ TECHNIQUE = 'runtime contract on FCSData(path) + accessor sweep vs a reference k
 RULE = ('optional keywords {$TIMESTEP, TIMETICKS, $BTIM, $ETIM, $DATE, $PnV, $PnG, $PnS, CREATOR, BD$WORDn, CytekPnnG} '
         'each absent / well-formed (every accepted format) / ill-formed (non-numeric, wrong field count, out-of-range '
         'fields, blank) x time channel {absent, Time, TIME, time, two} x version; quick = random covering draws, thorough = '
-        'more draws; non-trivial = at least one ill-formed keyword or a vendor fallback in play; distinct = digest(file)')
+        'more draws; non-trivial = at least one ill-formed keyword or a vendor fallback in play; distinct = digest(file)'
+        ' Also: duration read after a selection that leaves no event; zero-event files with a time channel must not raise.')
 ASSUMPTIONS = ['a two-digit-year date that fits both dd-mmm-yy and yy-mmm-dd is read as the standard dd-mmm-yy; nonstandard yy-mmm-dd dates are generated with yy > 31',
                'unparseable $TIMESTEP: absent time step or the legacy TIMETICKS value are both accepted',
                '1/60 s fractions compared within 1 microsecond', 'zero-event files with a time channel: the value of the duration is not judged, only that reading it does not raise']
